@@ -1,5 +1,7 @@
 import PyxisVerif.Spec.C12
 import PyxisVerif.Lemmas.C12
+import PyxisVerif.Model.Full
+import PyxisVerif.Lemmas.C12Parse
 /-!
 # C12 – every input yields a result: builds never panic or hang
 
@@ -188,5 +190,24 @@ theorem run_total_partial (c : Case) (hps : c.ps = 4 ∨ c.ps = 8) (hbound : Cas
 theorem alloc_only_for_huge_tables (out : List SFunc) (target : Nat) (site : String)
     (h : makePadding out target = .panic site) : site = allocSite ∧ target > paddingLoopBound :=
   makePadding_panic out target site h
+
+/-- the parser only produces `isize` literals (`LitInt::base10_parse::<isize>`), so every module that
+    comes out of the parser satisfies the literal bound the no-panic theorems need -/
+theorem parsed_module_bounded (s : String) (m : G.Module) (h : Parse.parseStr s = .ok m) : ModuleBounded m :=
+  parseStr_bounded s m h
+
+/-- **C12 for `pyxis::build`**: for ANY input texts (any bytes, any number of files) and pointer width 4 or
+    8: parsing either fails with a position or yields modules on which the whole build – adding the
+    modules, the resolution loop, resolving extern values – ends in success, an error or the
+    non-termination report; never in a panic other than the modelled allocation limit, never by
+    running out of rounds -/
+theorem text_build_total (c c' : Case) (hps : c.ps = 4 ∨ c.ps = 8) (ht : c.allText = true)
+    (h : resolveTexts c = .ok c') :
+    (match c'.run with
+     | .panic site => site = allocSite
+     | .fuel => False
+     | _ => True) := by
+  obtain ⟨hb, hp⟩ := resolveTexts_bounded c c' ht h
+  exact run_total_partial c' (by rw [hp]; exact hps) hb
 
 end PyxisVerif.C12
